@@ -507,7 +507,7 @@ def _run(ctx, pgpy, d, tmp):
             got = '%s %s %s %s %d %s' % (hn(int(p.sigtype)), hn(int(p.halg)), hn(int(p.pubalg)), p.signer.lower(), 1 if p.nested else 0, hx(bytes(buf)))
         else:
             got = 'ERR'
-        case = {'op': 'opsparse', 'data': bytes(buf).hex() if False else (bytes([0xc4, len(wire)]) + wire + follow).hex()}
+        case = {'op': 'opsparse', 'data': (bytes([0xc4, len(wire)]) + wire + follow).hex()}
         ctx.case('onepass-codec', (wire, follow), nontrivial=(got != 'ERR'), sample=dict(case, impl=got))
         ctx.expect_eq('onepass-codec', 'one-pass parse differs from model', case, got, d.call('opsparse', hx(wire[1:] + follow)) if wire[:1] == b'\x03' else 'ERR')
         if got != 'ERR' and cut == 13:
@@ -524,6 +524,24 @@ def _run(ctx, pgpy, d, tmp):
         ctx.case('utf8', t, sample={'text': cps(t)})
         ctx.expect_eq('utf8', 'text_to_bytes differs from model utf8', {'op': 'utf8', 'text': cps(t)}, hx(t.encode('utf-8')), d.call('utf8', cps(t)))
 
+    # ---- 3b. the premise of the byte-level theorems, on the implementation's primitive: decompress(compress x) = x,
+    #          and the oracle the model is run with is the same function
+    for alg in range(4):
+        for cls in ['empty', 'ascii', 'binary', 'all-octets', 'utf8-bytes', 'big-binary']:
+            data = bytes.fromhex(gen_content(rng, cls, ctx.n(65536, 1 << 20))['hex'])
+            comp = outcome(lambda: bytes(CA(alg).compress(data)))
+            ctx.case('compress-roundtrip', (alg, cls, hashlib.sha1(data).hexdigest()), sample={'alg': alg, 'cls': cls, 'len': len(data)})
+            case = {'op': 'compress', 'alg': alg, 'cls': cls, 'data': data.hex() if len(data) < 2000 else None}
+            if comp[0] != 'ok' or outcome(lambda: bytes(CA(alg).decompress(comp[1]))) != ('ok', data):
+                ctx.fail('compress-roundtrip', 'content does not survive compress / decompress', case)
+            elif hx(comp[1]) != o_compress(hx(bytes([alg])), hx(data)):
+                ctx.fail('compress-roundtrip', 'CompressionAlgorithm.compress differs from the primitive oracle', case)
+    ctx.exhaustive.append('4 compression algorithms x content classes (primitive round trip)')
+
+    # ---- 3c. optional cross-check of the model parser against gpg --list-packets (never a condition for passing)
+    if not ctx.quick:
+        gpg_crosscheck(ctx, d, blobs, tmp)
+
     # ---- 4. encryption: sign before / after, shapes, model export, decrypted payload in grammar
     run_encrypt(ctx, pgpy, d, K, fast, tmp)
 
@@ -532,6 +550,32 @@ def _run(ctx, pgpy, d, tmp):
 
     # ---- 6. packet sequences outside the grammar: __or__ against the model
     run_sequences(ctx, pgpy, d, K, fast, blobs)
+
+
+def gpg_crosscheck(ctx, d, blobs, tmp):
+    import re, subprocess
+    if not os.path.exists('/usr/bin/gpg'):
+        ctx.skipped.append('gpg cross-check (no /usr/bin/gpg)'); return
+    home = os.path.join(tmp, 'gnupg'); os.makedirs(home, mode=0o700, exist_ok=True)
+    agree = disagree = 0
+    for case, blob in blobs[:40]:
+        f = os.path.join(tmp, 'x.pgp')
+        with open(f, 'wb') as fh: fh.write(blob)
+        try:
+            out = subprocess.run(['/usr/bin/gpg', '--homedir', home, '--batch', '--no-tty', '--list-packets', f], stdout=subprocess.PIPE,
+                                 stderr=subprocess.DEVNULL, timeout=20).stdout.decode('latin-1')
+        except Exception:
+            continue
+        kinds = re.findall(r'^:(\w+)[ _]', out, flags=re.M)
+        lasts = re.findall(r'last=(\d)', out)
+        mine = d.call('parse', FUEL, hx(blob)).split(' ', 3)
+        toks = re.findall(r'(?:^|[;\[])([A-Z]\d*):', mine[3])
+        names = {'O': 'onepass', 'S': 'signature', 'L': 'literal', 'C': 'compressed'}
+        if [names.get(t, t) for t in toks] == kinds and ''.join(lasts) == (mine[2] if mine[2] != '-' else ''):
+            agree += 1
+        else:
+            disagree += 1
+    ctx.notes.append('gpg --list-packets cross-check of the model parser: %d agree, %d disagree (informative only)' % (agree, disagree))
 
 
 def split_packets(d, blob):
@@ -754,8 +798,6 @@ def run_sequences(ctx, pgpy, d, K, fast, blobs):
             # whatever was accepted: does its export stay inside the grammar?  (model export = implementation export)
             ob = outcome(lambda: bytes(o[1]))
             mo = d.call('reexport', FUEL, hx(data))
-            if ob[0] == 'ok' and all((seq_b[0] & 0x40) for seq_b in [data]):
-                pass
             ctx.case('sequence-reexport', hashlib.sha1(data).hexdigest(), nontrivial=(ob[0] == 'ok'))
             ctx.expect_eq('sequence', 're-export differs from model', cd, hx(ob[1]) if ob[0] == 'ok' else 'ERR', mo)
 
@@ -778,6 +820,11 @@ def replay(ctx, case):
             if o[0] != 'ok': return False
             o2 = outcome(pgpy.PGPMessage.from_blob, o[1])
             return o2[0] != 'ok' or bytes(o2[1]._message._contents) != b'abc'
+        if op == 'decrypted':
+            c2 = {k: v for k, v in case.items() if k not in ('op', 'after', 'twice', 'cipher')}
+            m, added = build_impl(pgpy, K, c2, tmp)
+            dec = pgpy.PGPMessage.from_blob(bytes(m.encrypt('pw'))).decrypt('pw')
+            return bytes(dec) != bytes(m) or d.call('grammar', FUEL, hx(bytes(dec))) != '1'
         if op in ('sequence', 'foreign') and case.get('data'):
             data = bytes.fromhex(case['data'])
             o = outcome(pgpy.PGPMessage.from_blob, data)
